@@ -320,7 +320,7 @@ def run_batch(ctx, bodies, tag='b', maxinv=MAXINV):
             f.write(e.text())
         exe, log = ctx.cc('%s%d' % (tag, i), [src], ['-w'], san=False)
         if not exe:
-            raise vlib.Infra('generated protothread bodies do not compile against %s: %s' % (vlib.REPO, log[-1500:]))
+            raise vlib.Unbuildable('generated protothread bodies do not compile against %s: %s' % (vlib.REPO, log[-1500:]))
         out = vlib.split_histories(vlib.run_exe([exe, str(maxinv)], '', timeout=600))
         out = out[:len(e.roots)] + [['!! missing']] * (len(e.roots) - len(out))
         impl += out
